@@ -1,0 +1,38 @@
+//go:build verif
+
+package scheduler
+
+import (
+	"github.com/andres-erbsen/clock"
+	"github.com/uber-go/tally"
+
+	"github.com/uber/kraken/core"
+	"github.com/uber/kraken/lib/torrent/networkevent"
+	"github.com/uber/kraken/lib/torrent/scheduler/announcequeue"
+	"github.com/uber/kraken/lib/torrent/storage"
+	"github.com/uber/kraken/tracker/announceclient"
+)
+
+// VerifC16NewScheduler builds and starts an agent scheduler exactly the way
+// NewAgentScheduler does (newScheduler + start with a real announce queue), but
+// on a caller-supplied clock (existing unexported withClock option), torrent
+// archive and announce client. Test-only seam for the C16 runtime monitor; no
+// logic of its own.
+func VerifC16NewScheduler(
+	config Config,
+	ta storage.TorrentArchive,
+	stats tally.Scope,
+	pctx core.PeerContext,
+	announceClient announceclient.Client,
+	netevents networkevent.Producer,
+	clk clock.Clock) (Scheduler, error) {
+
+	s, err := newScheduler(config, ta, stats, pctx, announceClient, netevents, withClock(clk))
+	if err != nil {
+		return nil, err
+	}
+	if err := s.start(announcequeue.New()); err != nil {
+		return nil, err
+	}
+	return s, nil
+}
